@@ -8,8 +8,8 @@
 // buffer harnesses and for building a parser with a small buffer) and the
 // private items of `zone_file` (Parser fields, Context) are visible.
 //
-// Input source: `Src<N>`, an array-backed `Read` implementation that hands
-// out its N octets element by element (no memcpy).
+// Input source: `Src<N>` (N <= 64), an array-backed `Read` implementation
+// that hands out its N octets element by element (no memcpy, no loop).
 
 use super::super::{Context, Line, LineContent, ParsedRr, Parser};
 use super::*;
@@ -29,17 +29,24 @@ impl<const N: usize> Src<N> {
     }
 }
 
+/// `$into[k] = $data[$pos + k]` for every k < $n among the listed indices,
+/// written without a loop so that handing out the input does not consume the
+/// harness's unwind bound (which is chosen for the parser's own loops).
+macro_rules! copy_unrolled {
+    ($into:expr, $data:expr, $pos:expr, $n:expr; $($k:literal)*) => {
+        $( if $k < $n { $into[$k] = $data[$pos + $k]; } )*
+    };
+}
+
 impl<const N: usize> Read for Src<N> {
     fn read(&mut self, into: &mut [u8]) -> io::Result<usize> {
-        // every caller in reader.rs passes a non-empty slice of at least
-        // 16 KiB - N octets, so the whole remainder is handed out at once and
-        // the returned count is a constant for CBMC
+        // every caller in reader.rs passes a slice with room for the whole
+        // remainder except the small-buffer reader harnesses; N <= 64
         let n = if N - self.pos <= into.len() { N - self.pos } else { into.len() };
-        let mut i = 0;
-        while i < n {
-            into[i] = self.data[self.pos + i];
-            i += 1;
-        }
+        copy_unrolled!(into, self.data, self.pos, n;
+            0 1 2 3 4 5 6 7 8 9 10 11 12 13 14 15 16 17 18 19 20 21 22 23 24 25 26 27 28 29 30 31
+            32 33 34 35 36 37 38 39 40 41 42 43 44 45 46 47 48 49 50 51 52 53 54 55 56 57 58 59 60 61 62 63);
+        assert!(n <= 64, "[C24] harness: Src hands out at most 64 octets per call");
         self.pos += n;
         Ok(n)
     }
@@ -102,18 +109,50 @@ fn drive<S: Read>(p: &mut Parser<S>, max_items: usize) -> (usize, usize, usize) 
     (recs, incs, errs)
 }
 
+/// The real parser over `data`, except that the reader's buffer is a
+/// 64-octet array on the harness's stack instead of a 16 KiB heap vector
+/// (INITIAL_BUFFER_SIZE).  The buffer's size and location are not observable
+/// (try_fill grows it on demand; the c24_reader_* harnesses check that logic
+/// on real vectors); CBMC keeps constants only in stack arrays of at most 64
+/// elements, so this is what lets the concrete octets of a line stay
+/// concrete.  The `Vec` built over the array must never be reallocated or
+/// dropped: inputs are at most 64 octets long (no growth: `try_fill` only
+/// resizes when asked for more octets than the buffer holds, and reads past
+/// the end of input fail before that), and every parser is `mem::forget`-ed.
+fn small_parser<'b, const N: usize>(data: [u8; N], storage: &'b mut [u8; 64], context: Context) -> Parser<Src<N>> {
+    let buf = unsafe { Vec::from_raw_parts(storage.as_mut_ptr(), 64, 64) };
+    Parser {
+        error: false,
+        reader: Reader {
+            stream: Src::new(data),
+            buf,
+            start: 0,
+            end: 0,
+            in_parens: false,
+            position: Position { line: 1, column: 1 },
+        },
+        context,
+    }
+}
+
 fn totality<const N: usize>() {
     let data: [u8; N] = kani::any();
-    let mut p = Parser::new(Src::new(data));
+    let mut storage = [0u8; 64];
+    let mut p = small_parser(data, &mut storage, Context::default());
     let (recs, _incs, errs) = drive(&mut p, 3);
     kani::cover!(errs == 1, "some input is rejected");
     kani::cover!(errs == 0 && recs == 0, "some input is accepted as empty");
     core::mem::forget(p);
 }
 
-// @harness props=C24 tier=quick mem=4 t=1200 stubs="S6"
-//   fn="zone_file::Parser::new,Parser::next,Parser::parse_line,Parser::parse_record_or_empty,Parser::parse_directive,Reader::*"
-//   bound="every input of exactly 1 octet (all 256) through the real Parser::new (16 KiB buffer), iterated until None or 3 items; unwind 4"
+// Through the real `Parser::new` (16 KiB buffer, which CBMC treats as one
+// symbolic array) even N = 1 was out of reach: symbolic execution ran for 25
+// min and CBMC ran out of memory at 6.0 GB RSS (measured, unwind 4).  The
+// totality harnesses therefore use `small_parser`.
+
+// @harness props=C24 tier=quick mem=4 t=1800 stubs="S6"
+//   fn="Parser::next,Parser::parse_line,Parser::parse_record_or_empty,Parser::parse_directive,Parser::parse_name,Reader::*"
+//   bound="every input of exactly 1 octet (all 256) through the parser with a 64-octet initial buffer, iterated until None or 3 items; unwind 4"
 //   sym="data:[u8;1]"
 #[kani::proof]
 #[kani::unwind(4)]
@@ -122,9 +161,9 @@ fn c24_total_len1() {
     totality::<1>();
 }
 
-// @harness props=C24 tier=quick mem=6 t=1800 stubs="S6"
-//   fn="zone_file::Parser::new,Parser::next,Parser::parse_line,Parser::parse_record_or_empty,Parser::parse_directive,Reader::*"
-//   bound="every input of exactly 2 octets through the real Parser::new, iterated until None or 3 items; unwind 5"
+// @harness props=C24 tier=quick mem=6 t=2400 stubs="S6"
+//   fn="Parser::next,Parser::parse_line,Parser::parse_record_or_empty,Parser::parse_directive,Parser::parse_name,Reader::*"
+//   bound="every input of exactly 2 octets through the parser with a 64-octet initial buffer, iterated until None or 3 items; unwind 5"
 //   sym="data:[u8;2]"
 #[kani::proof]
 #[kani::unwind(5)]
@@ -133,9 +172,9 @@ fn c24_total_len2() {
     totality::<2>();
 }
 
-// @harness props=C24 tier=quick mem=8 t=2400 stubs="S6"
-//   fn="zone_file::Parser::new,Parser::next,Parser::parse_line,Parser::parse_record_or_empty,Parser::parse_directive,Reader::*"
-//   bound="every input of exactly 3 octets through the real Parser::new, iterated until None or 3 items; unwind 6"
+// @harness props=C24 tier=thorough mem=8 t=3600 stubs="S6"
+//   fn="Parser::next,Parser::parse_line,Parser::parse_record_or_empty,Parser::parse_directive,Parser::parse_name,Reader::*"
+//   bound="every input of exactly 3 octets through the parser with a 64-octet initial buffer, iterated until None or 3 items; unwind 6"
 //   sym="data:[u8;3]"
 #[kani::proof]
 #[kani::unwind(6)]
@@ -147,26 +186,6 @@ fn c24_total_len3() {
 // --------------------------------------------------------------------------
 // structured lines
 // --------------------------------------------------------------------------
-
-/// The real parser over `data`, except that the reader's buffer starts with
-/// 64 octets instead of INITIAL_BUFFER_SIZE (16 KiB).  The buffer size is not
-/// observable (try_fill grows it on demand; the c24_reader_* harnesses check
-/// that logic); a 64-element array is the largest CBMC keeps constants for,
-/// so the concrete octets of a line stay concrete.  N <= 64.
-fn small_parser<const N: usize>(data: [u8; N], context: Context) -> Parser<Src<N>> {
-    Parser {
-        error: false,
-        reader: Reader {
-            stream: Src::new(data),
-            buf: vec![0; 64],
-            start: 0,
-            end: 0,
-            in_parens: false,
-            position: Position { line: 1, column: 1 },
-        },
-        context,
-    }
-}
 
 /// The record of the first yielded line, if it is a record.
 fn first_record<S: Read>(p: &mut Parser<S>) -> Option<(usize, ParsedRr)> {
@@ -206,7 +225,8 @@ fn wire_eq(a: &[u8], b: &[u8]) -> bool {
 #[kani::stub(alloc::fmt::format, empty_format)]
 fn x_probe_ns_concrete() {
     let line: [u8; 12] = [b'.', b' ', b'5', b' ', b'I', b'N', b' ', b'N', b'S', b' ', b'.', b'\n'];
-    let mut p = small_parser(line, Context::default());
+    let mut storage = [0u8; 64];
+    let mut p = small_parser(line, &mut storage, Context::default());
     let r = first_record(&mut p);
     match &r {
         Some((n, rr)) => {
@@ -232,7 +252,8 @@ fn x_probe_ns_ttl1() {
     let d: u8 = kani::any();
     kani::assume(d >= b'0' && d <= b'9');
     let line: [u8; 12] = [b'.', b' ', d, b' ', b'I', b'N', b' ', b'N', b'S', b' ', b'.', b'\n'];
-    let mut p = small_parser(line, Context::default());
+    let mut storage = [0u8; 64];
+    let mut p = small_parser(line, &mut storage, Context::default());
     let r = first_record(&mut p);
     match &r {
         Some((n, rr)) => {
